@@ -58,9 +58,34 @@ def gen_wb(rng, big=False):
         if t.startswith(("select_one ", "select_multiple ")) and not langs and rng.random() < 0.2:
             row["type"] = t + " or_other"
     qrows = [r for r in rows if r.get("type") and not r["type"].startswith(("begin", "end")) and ("label" in r or any(k.startswith("label::") for k in r))]
-    # mixed unsuffixed + suffixed translations (default_language stays "default": no F39 shape)
-    if not langs and qrows and rng.random() < 0.35:
-        lg = rng.choice(["fr", "French (fr)"])
+    # mixed unsuffixed + suffixed translations; in a third of these the settings name one of the suffix
+    # languages as default_language, so that the unsuffixed column and the column suffixed with the
+    # default language meet in one row ("the suffixed one wins", whatever the column order)
+    if not langs and qrows and rng.random() < 0.4:
+        lg = rng.choice(["fr", "French (fr)", "English"])
+        lg2 = rng.choice([None, None, "de", "Deutsch (de)"])
+        if rng.random() < 0.4:
+            st = form.setdefault("settings", [{}])
+            if not st:
+                st.append({})
+            st[0]["default_language"] = rng.choice([lg, lg, lg2 or lg])
+        for r in [x for x in rows if x.get("type", "").startswith("begin") and "label" in x]:
+            if rng.random() < 0.5:
+                r[f"label::{lg}"] = "G " + gen.adv_text(rng, 2, plain=True)
+        if lg2:
+            for r in qrows:
+                if rng.random() < 0.6:
+                    r[f"label::{lg2}"] = "D " + gen.adv_text(rng, 3, plain=True)
+                if "hint" in r and rng.random() < 0.5:
+                    r[f"hint::{lg2}"] = "DH " + gen.adv_text(rng, 2, plain=True)
+            for c in form.get("choices", []):
+                if rng.random() < 0.6:
+                    c[f"label::{lg2}"] = "DC " + gen.adv_text(rng, 2, plain=True)
+        if rng.random() < 0.3:
+            for r in qrows:
+                if rng.random() < 0.5:
+                    r["guidance_hint"] = "gh " + gen.adv_text(rng, 2, plain=True)
+                    r[f"guidance_hint::{lg}"] = "GH " + gen.adv_text(rng, 2, plain=True)
         for r in qrows:
             if rng.random() < 0.7:
                 r[f"label::{lg}"] = "T " + gen.adv_text(rng, 3, plain=True)
@@ -69,6 +94,21 @@ def gen_wb(rng, big=False):
         for c in form.get("choices", []):
             if rng.random() < 0.7:
                 c[f"label::{lg}"] = "C " + gen.adv_text(rng, 2, plain=True)
+    # choices that trigger row-numbered messages of the choices validator: unlabeled choices (warning),
+    # duplicate names (error unless allow_choice_duplicates)
+    if form.get("choices") and rng.random() < 0.3:
+        for c in form["choices"]:
+            if rng.random() < 0.3:
+                for k in [k for k in c if k.startswith("label")]:
+                    del c[k]
+        if rng.random() < 0.3 and len(form["choices"]) > 1:
+            c = dict(rng.choice(form["choices"]))
+            form["choices"].insert(rng.randint(0, len(form["choices"])), c)
+            if rng.random() < 0.6:
+                st = form.setdefault("settings", [{}])
+                if not st:
+                    st.append({})
+                st[0]["allow_choice_duplicates"] = "yes"
     # media
     if qrows and rng.random() < 0.3:
         col = rng.choice(["image", "media::image", "audio", "media::video", "big-image"])
@@ -127,7 +167,7 @@ ALL_TX = list(spell_tx.TX)
 def pick_tx(rng, channel):
     k = rng.choice([1, 1, 2, 2, 3, 4])
     pool = [t for t in ALL_TX if channel != "dict" or t not in spell_tx.NEEDS_FILE or t == "extra_sheet"]
-    weights = [0.25 if t == "extra_sheet" and channel == "dict" else (0.3 if t == "blank_row" and channel == "md" else 1.0) for t in pool]
+    weights = [0.3 if t == "blank_row" and channel == "md" else 1.0 for t in pool]
     return rng.choices(pool, weights=weights, k=k)
 
 
@@ -161,25 +201,12 @@ def compare(ctx, wb, wb2, labels, channel, tag="meta"):
                 s["rows"] = [s["rows"][i] for i in keep]
                 s["orig"] = [i + 2 for i in range(len(keep))]
             f16 = spell.canon_result(spell.run(wb3, channel), lax) == ca
-        f28 = False
-        if ca["class"] == cb["class"] == "ok" and ca["xform"] == cb["xform"] and any(l.startswith("sheet_case") for l in labels):
-            # F28: the only difference is a misspelling warning about a present, row-less sheet whose name differs in case only
-            wa, wb_ = list(ca["warnings"]), list(cb["warnings"])
-            for w in list(wa):
-                if w in wb_:
-                    wa.remove(w)
-                    wb_.remove(w)
-            empty = {s["name"] for s in wb2["sheets"] if s["name"].lower() in ("settings", "entities")
-                     and s["name"] != s["name"].lower() and not any(v not in (None, "") for r in s["rows"] for v in r)}
-            f28 = not wa and bool(wb_) and all(
-                any(w.startswith(f"When looking for a sheet named '{n.lower()}', the following sheets with similar names were found: '{n}'.") for n in empty)
-                for w in wb_)
         ctx.fail(Failure(
             "not-equivalent",
             f"[{channel}] {' + '.join(labels)}: {detail}",
             case,
             extra={"orig_class": a["class"], "new_class": b["class"], "orig_msg": a.get("msg", ""), "new_msg": b.get("msg", ""),
-                   "site": b.get("site", "") or a.get("site", ""), "labels": labels, "channel": channel, "diff": detail, "f16": f16, "f28": f28},
+                   "site": b.get("site", "") or a.get("site", ""), "labels": labels, "channel": channel, "diff": detail, "f16": f16},
         ))
     ctx.record({"wb": case["wb"], "labels": labels, "channel": channel}, a["ok"] and bool(labels))
     return ca == cb
@@ -212,6 +239,12 @@ def meta_case(ctx, rng, big=False):
 
 
 # --------------------------------------------------------------------------- exhaustive alias pairs
+
+def impl_headers(rows):
+    import impl
+
+    return impl.headers_of(rows)
+
 
 def base_form():
     return {
@@ -328,6 +361,65 @@ def exhaustive(ctx):
                 compare(ctx, spell_tx.init_orig(spell.wb_from_form(f1)), spell_tx.init_orig(spell.wb_from_form(f2)),
                         [f"truth:settings:{col}:{plain[0]}->{v}"], "dict", tag="alias")
                 n += 1
+    # sheet-name case x presence state of each optional sheet (with rows / header only) x file channel
+    for sname, cols, row in (("settings", ["form_title", "form_id"], ["T", "fid"]), ("choices", ["list_name", "name", "label"], None),
+                             ("entities", ["dataset", "label"], ["people", "concat(${t}, 'x')"]),
+                             ("external_choices", ["list_name", "name"], ["ec", "a"])):
+        for with_rows in (True, False):
+            if row is None and not with_rows:
+                continue  # the base form's select needs its choices
+            for variant in (sname.capitalize(), sname.upper(), sname.title().replace("_", "_")):
+                for channel in ("md", "xlsx"):
+                    wb = spell_tx.init_orig(spell.wb_from_form(base_form()))
+                    if row is not None:
+                        wb["sheets"] = [x for x in wb["sheets"] if x["name"] != sname]
+                        wb["sheets"].append({"name": sname, "cols": list(cols), "rows": [list(row)] if with_rows else [], "orig": [2] if with_rows else []})
+                    wb2 = copy.deepcopy(wb)
+                    spell.sheet(wb2, sname)["name"] = variant
+                    if channel_ok(wb, channel) and channel_ok(wb2, channel):
+                        compare(ctx, wb, wb2, [f"sheet_case:{sname}->{variant}"], channel, tag="alias")
+                        n += 1
+    # translated columns: the unsuffixed column, the column suffixed with the default language and another
+    # language's column, in every order (survey label/hint/guidance_hint, choices label), with and without
+    # default_language naming the suffix
+    import itertools
+
+    for sname, col, ridx in (("survey", "label", 1), ("survey", "hint", 1), ("survey", "guidance_hint", 1), ("survey", "label", 0), ("choices", "label", 0)):
+        for dlang in ("English", None):
+            def build(order):
+                f = base_form()
+                if dlang:
+                    f["settings"][0]["default_language"] = dlang
+                for r_i, r in enumerate(f[sname]):
+                    r.pop(col, None)
+                vals = {col: "Plain", f"{col}::English": "Eng", f"{col}::French": "Fra"}
+                for h in order:
+                    f[sname][ridx][h] = vals[h]
+                    if sname == "choices":
+                        f[sname][1][h] = vals[h] + "2"
+                if col != "label" and sname == "survey":
+                    pass
+                f[sname + "_cols"] = [c for c in impl_headers(f[sname]) if c not in vals] + list(order)
+                return spell_tx.init_orig(spell.wb_from_form(f))
+
+            orders = list(itertools.permutations([col, f"{col}::English", f"{col}::French"]))
+            for o in orders[1:]:
+                compare(ctx, build(orders[0]), build(o), [f"col_perm:{sname}:{'|'.join(o)}"], "dict", tag="alias")
+                n += 1
+    # blank rows in the choices sheet above choices that draw a row-numbered message (unlabeled choice)
+    for k in range(0, 4):
+        for cnt in (1, 2):
+            for channel in ("dict", "xlsx"):
+                f = base_form()
+                f["choices"] += [{"list_name": "l", "name": "c"}, {"list_name": "l", "name": "d", "label": "D"}, {"list_name": "l", "name": "e"}]
+                wb = spell_tx.init_orig(spell.wb_from_form(f))
+                wb2 = copy.deepcopy(wb)
+                s2 = spell.sheet(wb2, "choices")
+                for _ in range(cnt):
+                    s2["rows"].insert(k, [None] * len(s2["cols"]))
+                    s2["orig"].insert(k, None)
+                compare(ctx, wb, wb2, [f"blank_row:choices:{k}x{cnt}"], channel, tag="alias")
+                n += 1
     ctx.notes["exhaustive_alias_cases"] = n
     ctx.notes["exhaustive"] = True
 
@@ -354,23 +446,12 @@ def replay(ctx, payload, bs):
     return (len(ctx.failures), len(ctx.mismatches)) == before and not ctx.known_seen
 
 
-def m_f26(f):
-    x = f.extra
-    return (f.kind == "not-equivalent" and x.get("channel") == "dict" and any(l.startswith("extra_sheet") for l in x.get("labels", []))
-            and x.get("orig_class") != "internal" and x.get("new_class") == "internal"
-            and "DefinitionData.__init__() got an unexpected keyword argument" in x.get("new_msg", ""))
-
-
 def m_f16(f):
     x = f.extra
     return f.kind == "not-equivalent" and x.get("channel") == "md" and bool(x.get("f16"))
 
 
-def m_f28(f):
-    return f.kind == "not-equivalent" and bool(f.extra.get("f28"))
-
-
-MATCHERS = {"F28-rowless-sheet-case-misspelling": m_f28, "F26-dict-unrelated-sheet": m_f26, "F16-md-blank-row-dropped": m_f16}
+MATCHERS = {"F16-md-blank-row-dropped": m_f16}
 
 
 def main(argv):
